@@ -934,7 +934,38 @@ def _id_suite(ctx, M, obj, rs, pool_n, gen, mode):
             ok, nw = _check_members(ctx, "id.members", (fn, "reduced" if reduced else "whole"), M, obj, res, expected, [], b, detail)
             if ok and expected and b is not None and len(outs) < 6 and rs.random() < 0.3:
                 outs.append((res, {"start": b[0], "end": b[1], "win": nw, "genome": M.get("genome"), "members": expected}))
+    _member_level_guid_queries(ctx, obj, rs, unknown_guid, gen)
     return outs
+
+
+def _member_level_guid_queries(ctx, obj, rs, unknown_guid, gen):
+    """GeneInterval / FeatureIntervalCollection / VariantIntervalCollection.query_by_guids asked directly (single id and list): the
+    answer is the same member (guid, identifiers) holding exactly the requested children with unchanged dictionaries, or None."""
+    real = list(getattr(obj, "genes", [])) + list(getattr(obj, "feature_collections", [])) + list(getattr(obj, "variant_collections", []) or [])
+    for mem in rs.sample(real, min(3, len(real))):
+        kids = list(mem.iter_children())
+        key = {"GeneInterval": "transcripts", "FeatureIntervalCollection": "feature_intervals", "VariantIntervalCollection": "variant_intervals"}[type(mem).__name__]
+        src = {k.guid: k.to_dict() for k in kids}
+        picks = [kids[0].guid, [kids[-1].guid], [k.guid for k in kids][::-1], [kids[0].guid, unknown_guid], unknown_guid, [unknown_guid], []]
+        for arg in picks:
+            want = [g for g in (arg if isinstance(arg, list) else [arg]) if g in src]
+            res, exc = ctx.call(mem.query_by_guids, arg)
+            det = {"member": type(mem).__name__, "asked": [str(x) for x in (arg if isinstance(arg, list) else [arg])], "single": not isinstance(arg, list),
+                   "generation": gen}
+            if exc is not None:
+                ctx.check("id.members", False, key=("member-level", type(mem).__name__, "raised", type(exc).__name__), exc=repr(exc)[:200], **det)
+                continue
+            if not want:
+                ctx.check("id.members", res is None, key=("member-level", type(mem).__name__, "no-match-is-None"), got=repr(res)[:120], **det)
+                continue
+            ok = res is not None and type(res) is type(mem) and res.guid == mem.guid and res.identifiers == mem.identifiers
+            got = [k.guid for k in res.iter_children()] if ok else None
+            ctx.check("id.members", ok and sorted(map(str, got)) == sorted(map(str, want)), key=("member-level", type(mem).__name__, "children"),
+                      got=[str(x) for x in got] if got is not None else repr(res)[:120], want=[str(x) for x in want], **det)
+            if ok:
+                d = res.to_dict()
+                same = all(next((c for c in d[key] if c == src[g]), None) is not None for g in want) and len(d[key]) == len(want)
+                ctx.check("member.dict", same, key=("member-level", type(mem).__name__, "child-dicts-unchanged"), **det)
 
 
 def _pos_suite(ctx, M, obj, ranges, bad, gen, mode, rs, flagsets=None):
